@@ -34,8 +34,8 @@ def run(ctx):
             runs.append(("exh", "thread", lim, 3, 3))
         runs.append(("exh", "process", 1, 3, 3))
     # large key alphabet (hash-table growth / collisions): 300 names, judged with the *_big cfgs
-    runs.append(("rand", "thread", 0, 300, 2500 if q else 20000, 1))
-    runs.append(("rand", "process", 0, 300, 2500 if q else 20000, 1))
+    runs.append(("rand", "thread", 0, 300, 2500 if q else 8000, 1))
+    runs.append(("rand", "process", 0, 300, 2500 if q else 8000, 1))
     n = 0
     for spec in runs:
         n += 1
